@@ -141,9 +141,10 @@ public:
   void resize(usize length) {detach(length, length);}
   void reserve(usize size) {detach(data->len, size < data->len ? data->len : size);} // todo: optimize this method, use it in append methods
 
-  String& prepend(const String& str)
+  String& prepend(const String& other)
   {
     String copy(*this);
+    const String& str = &other == this ? copy : other; // detach() replaces the data of *this
     usize newLen = str.data->len + copy.data->len;
     detach(0, newLen);
     Memory::copy((char*)data->str, str.data->str, str.data->len * sizeof(char));
